@@ -27,6 +27,11 @@ def make_scratch(m):
     shutil.copytree(os.path.join(REPO, 'src'), os.path.join(t, 'src'))
     for f in ('Cargo.toml', 'Cargo.lock'):
         shutil.copy(os.path.join(REPO, f), os.path.join(t, f))
+    if m.get('diff'):
+        r = subprocess.run(['patch', '-p1', '-s', '-d', t, '-i', os.path.join(VERIF, m['diff'])], stdout=subprocess.PIPE, stderr=subprocess.STDOUT, text=True)
+        if r.returncode != 0:
+            shutil.rmtree(t, ignore_errors=True)
+            return None, 'diff does not apply: ' + r.stdout[-300:]
     for rel, find, repl in m['edits']:
         p = os.path.join(t, rel)
         s = open(p).read()
